@@ -16,14 +16,16 @@ def hexVal? (c : Char) : Option Nat :=
   else if 'A' ≤ c ∧ c ≤ 'F' then some (c.toNat - 55)
   else none
 
-def bytesOfHexChars : List Char → Option Bytes
-  | [] => some []
-  | [_] => none
-  | a :: b :: rest => do
-    let x ← hexVal? a
-    let y ← hexVal? b
-    let r ← bytesOfHexChars rest
-    pure (UInt8.ofNat (x * 16 + y) :: r)
+/-- tail recursive: inputs of tens of megabytes must not exhaust the stack -/
+def bytesOfHexChars (cs : List Char) : Option Bytes :=
+  let rec go : List Char → Array UInt8 → Option (Array UInt8)
+    | [], acc => some acc
+    | [_], _ => none
+    | a :: b :: rest, acc =>
+      match hexVal? a, hexVal? b with
+      | some x, some y => go rest (acc.push (UInt8.ofNat (x * 16 + y)))
+      | _, _ => none
+  (go cs #[]).map (·.toList)
 
 def bytesOfHex? (s : String) : Option Bytes := bytesOfHexChars s.toList
 
